@@ -54,3 +54,14 @@ pub assume_specification<T, const N: usize> [<[T; N]>::as_mut_slice] (a: &mut [T
 pub assume_specification<T: Clone> [<[T]>::clone_from_slice] (s: &mut [T], src: &[T])
     requires old(s)@.len() == src@.len()
     ensures final(s)@ == src@;
+
+/// `Vec<T>::as_ref() -> &[T]`
+pub assume_specification<T, A: std::alloc::Allocator> [<std::vec::Vec<T, A> as AsRef<[T]>>::as_ref] (v: &std::vec::Vec<T, A>) -> (r: &[T])
+    ensures r@ == v@;
+/// UTF-8 encoding is injective
+pub proof fn lemma_str_bytes_inj(a: Seq<char>, b: Seq<char>)
+    ensures (str_bytes(a) == str_bytes(b)) == (a == b)
+{
+    vstd::utf8::encode_utf8_decode_utf8(a);
+    vstd::utf8::encode_utf8_decode_utf8(b);
+}
